@@ -724,6 +724,7 @@ func c13Acquisitions(e *Env) {
 			ok = found
 		}
 		e.R.Check(ok, rule, "udp/client.Conn.prepareWriteMessage:nstart-release-queued", e.fpos(f), "the NSTART slot's release is put on the cleanup list right after a successful acquire", "the NSTART slot is not released by the cleanup list")
+		nstartReleasedOnError(e, rule)
 	}
 	// NSTART arithmetic: Acquire(n) then Release(n-1); the remaining 1 is released by releaseOutstandingInteraction
 	if f := e.fn(rule, "udp/client.Conn.acquireOutstandingInteraction"); f != nil {
@@ -820,5 +821,49 @@ func c13Acquisitions(e *Env) {
 			}
 		}
 		e.R.Check(ok, rule, "net/blockwise.BlockWise.getCachedReceivedMessage:onExpire-drops-sending", e.fpos(f), "the reassembly entry's onExpire deletes the paired sending entry", "an expired reassembly entry leaves its paired sending entry behind")
+	}
+}
+
+// nstartReleasedOnError: once prepareWriteMessage holds an NSTART slot (successful acquireOutstandingInteraction), every return with
+// an error gives it back first – by calling releaseOutstandingInteraction (directly or through a function value bound to it) or
+// by executing the clean-up list. A slot kept by a failed request is lost for the life of the connection: with NSTART = 1 every
+// later request waits for ever.
+func nstartReleasedOnError(e *Env, rule string) {
+	f := e.fn(rule, "udp/client.Conn.prepareWriteMessage")
+	if f == nil {
+		return
+	}
+	for _, a := range core.CallsNamed(f, "udp/client.Conn.acquireOutstandingInteraction") {
+		acq, ok := a.(*ssa.Call)
+		if !ok {
+			continue
+		}
+		q := &core.PathQuery{Fn: f, From: acq,
+			Stop: func(in ssa.Instruction) bool {
+				c, isC := in.(*ssa.Call)
+				if !isC {
+					return false
+				}
+				n := core.CalleeName(c)
+				return n == "udp/client.Conn.releaseOutstandingInteraction" || n == "pkg/fn.FuncList.Execute"
+			},
+			Target: func(in ssa.Instruction) bool {
+				ret, isRet := in.(*ssa.Return)
+				if !isRet || len(ret.Results) == 0 {
+					return false
+				}
+				rv := core.RetVal(ret, len(ret.Results)-1)
+				return core.IsErrorType(rv.Type()) && !core.IsNilConst(rv)
+			},
+			EdgeOK: func(i *ssa.If, branch bool) bool {
+				// only the successful acquisition owns a slot
+				ev, nilBranch, isErr := core.ErrNilEdge(i)
+				if isErr && core.Resolve(ev) == ssa.Value(acq) {
+					return branch == nilBranch
+				}
+				return true
+			}}
+		w := q.Find()
+		e.R.Check(w == nil, rule, "udp/client.Conn.prepareWriteMessage:nstart-released-on-error", e.pos(acq), "every error return after a successful acquisition releases the slot first", "an error path keeps the NSTART slot: "+e.trace(w))
 	}
 }
